@@ -367,6 +367,38 @@ func ruleLineCounter(c *Ctx, rule string) {
 	}
 	c.Ob(rule, "fast.Interp.ParseEvalPrint/after-eval-deferred", pep, okDefer, "the line counter is advanced by the whole chunk through a defer registered before the chunk is parsed or evaluated: it advances once per chunk on every path, including errors")
 	c.Ob(rule, "fast.Interp.afterEval/inc-line", ae, okInc, "afterEval advances the counter by the number of newlines of the chunk, unconditionally")
+	// every byte of a chunk is counted once: Read() counts the comments before the first token (src[0:firstToken]),
+	// so the evaluator (whose afterEval counts what it is given) must receive the rest, src[firstToken:]
+	for _, short := range []string{"fast", "classic"} {
+		pk := c.P.Pkg(short)
+		rd := c.P.Func(short + ".Interp.Read")
+		rp := c.P.Func(short + ".Interp.ReadParseEvalPrint")
+		if pk == nil || rd == nil || rp == nil {
+			c.Ob(rule, short+".Interp.ReadParseEvalPrint", nil, false, "anchor functions not found")
+			continue
+		}
+		info := pk.TypesInfo
+		countsPrefix := false
+		inspectCalls(rd.Body, func(call *ast.CallExpr) {
+			if fn := calleeOf(info, call); fn != nil && fn.Name() == "IncLine" && len(call.Args) == 1 {
+				if sl, ok := unparen(call.Args[0]).(*ast.SliceExpr); ok && sl.High != nil && (sl.Low == nil || exprString(sl.Low) == "0") {
+					countsPrefix = true
+				}
+			}
+		})
+		passesSuffix, passesWhole := false, false
+		inspectCalls(rp.Body, func(call *ast.CallExpr) {
+			if fn := calleeOf(info, call); fn != nil && fn.Name() == "ParseEvalPrint" && len(call.Args) == 1 {
+				if sl, ok := unparen(call.Args[0]).(*ast.SliceExpr); ok && sl.Low != nil && sl.High == nil {
+					passesSuffix = true
+				} else {
+					passesWhole = true
+				}
+			}
+		})
+		okPart := countsPrefix && passesSuffix && !passesWhole || !countsPrefix && passesWhole && !passesSuffix
+		c.Ob(rule, short+".Interp.ReadParseEvalPrint/partition", rp, okPart, fmt.Sprintf("each line of a chunk is counted exactly once: either Read() counts the comments before the first token and the evaluator receives the rest, or Read() counts nothing of an evaluated chunk and the evaluator receives it whole (Read counts prefix: %v; evaluator gets suffix: %v, whole: %v)", countsPrefix, passesSuffix, passesWhole))
+	}
 	// IncLine counts newlines
 	opk := c.P.Pkg("base/output")
 	il := c.P.Func("base/output.Stringer.IncLine")
@@ -416,8 +448,8 @@ func init() {
 		ID:    "C27",
 		Title: "Reported source positions are exact across chunks and line offsets",
 		Explanation: "Decided (structural clauses): L1 every exported method of the embedded go/token.File / go/token.FileSet that returns a token.Position (enumerated from go/token's type information) is overridden — declared, not promoted — by etoken.File / etoken.FileSet; File.PositionFor asks the embedded file with the same arguments and adds the file's starting line to a valid position, changing nothing else; Position / FileSet.Position / FileSet.PositionFor / FileSet.Source delegate with their own arguments; File.Source subtracts the same offset and indexes the stored lines inside their bounds; AddFile creates the inner file with (name, base, size), records the starting line and registers the wrapper; File.line has no other writer; " +
-			"L2 line counter: Globals.ParseBytes parses each chunk into the interpreter's file set with Globals.Line as starting line and the parser passes it to FileSet.AddFile; ParseEvalPrint registers afterEval(src) with defer before the chunk is parsed or evaluated and afterEval advances the counter by the chunk's newlines unconditionally (so it advances once per chunk on every path, including errors); IncLine counts '\\n'; EvalReader and the REPL reset the counter. " +
-			"Not decided: the position text in a given error message, the accounting of leading comments between chunks (Interp.Read), positions of macro-generated nodes.",
+			"L2 line counter: Globals.ParseBytes parses each chunk into the interpreter's file set with Globals.Line as starting line and the parser passes it to FileSet.AddFile; ParseEvalPrint registers afterEval(src) with defer before the chunk is parsed or evaluated and afterEval advances the counter by the chunk's newlines unconditionally (so it advances once per chunk on every path, including errors); IncLine counts '\\n'; EvalReader and the REPL reset the counter; each line of a chunk is counted exactly once in both interpreters (either Read counts the leading comments and the evaluator gets the rest, or the evaluator gets the whole chunk and Read counts nothing of it). " +
+			"Not decided: the position text in a given error message, positions of macro-generated nodes.",
 		Assumptions: []string{"go/token.File.PositionFor and go/token.FileSet.AddFile as documented"},
 		Rules: []func(*Ctx){func(c *Ctx) {
 			ruleFilesetOverrides(c, "L1-fileset-offset")
@@ -431,6 +463,7 @@ func init() {
 			{Name: "source-line-not-unshifted", File: "go/etoken/fileset.go", Old: "line := pos.Line - f.line", New: "line := pos.Line"},
 			{Name: "chunk-parsed-at-line-zero", File: "base/global.go", Old: "parser.Init(g.Fileset, g.Filepath, g.Line, src)", New: "parser.Init(g.Fileset, g.Filepath, 0, src)"},
 			{Name: "line-counter-skipped-on-error", File: "fast/repl.go", Old: "\tt1, trap, duration := ir.beforeEval()\n\tdefer ir.afterEval(src, &callAgain, &trap, t1, duration)\n", New: "\tt1, trap, duration := ir.beforeEval()\n\tdefer func() {\n\t\tif !trap {\n\t\t\tir.afterEval(src, &callAgain, &trap, t1, duration)\n\t\t}\n\t}()\n"},
+			{Name: "leading-comment-lines-counted-twice", File: "fast/repl.go", Old: "\tif firstToken < 0 {\n\t\tg.IncLine(src)\n\t}\n", New: "\tif firstToken < 0 {\n\t\tg.IncLine(src)\n\t} else if firstToken > 0 {\n\t\tg.IncLine(src[0:firstToken])\n\t}\n"},
 			{Name: "addfile-forgets-line", File: "go/etoken/fileset.go", Old: "f := &File{File: innerf, line: line}", New: "f := &File{File: innerf}"},
 			{Name: "adjusted-flag-dropped", File: "go/etoken/fileset.go", Old: "pos = f.PositionFor(p, adjusted)\n\t}\n\treturn\n}", New: "pos = f.PositionFor(p, true)\n\t}\n\treturn\n}"},
 		},
